@@ -13,9 +13,9 @@ META = {
     "exhaustive_within_bound": True,
     "bounds": {
         "quick": "every lint-legal acyclic circuit over N=4 names, created in topological and in reverse topological order: all presence/type/output/edge combinations; inputs=False with all 14 types (incl. blackbox pins), inputs=True with blackbox-free types; repeated application (second call)",
-        "thorough": "N=5",
+        "thorough": "N=5 in topological and reverse topological creation order; N=4 in an interleaved order (n1, n3, n0, n2)",
     },
-    "outside": ["more than N nodes", "cyclic circuits", "creation orders other than: topological, reverse topological (thorough: one interleaved order)"],
+    "outside": ["more than N nodes", "cyclic circuits", "creation orders other than: topological, reverse topological (thorough: one interleaved order on 4 names)"],
     "assumptions": ["SymDiGraph stand-in for networkx.DiGraph (validated by a conformance replay against real networkx on every path)", "specs.py definitions of liveness/legality", "z3 sound"],
     "rule": "state = explored path (class of pre-states that drive the real code the same way); transition = solver-decided branch",
 }
@@ -30,9 +30,12 @@ def all_cases(ctx):
     ks = [int(format(k, f"0{sb}b")[::-1], 2) for k in range(1 << sb)]
     cs = [(("remove_unloaded", N, inputs, k), (N, inputs, sb, k)) for k in ks for inputs in (False, True)]
     # the same universe with the edges running AGAINST the iteration (= creation) order of the graph: drivers created after their
-    # loads, as in parsed or incrementally wired netlists (thorough: also an interleaved order)
-    for order in (("rev",) if ctx.quick else ("rev", "mixed")):
-        cs += [(("remove_unloaded", N, inputs, k, order), ((N, order), inputs, sb, k)) for k in ks for inputs in (False, True)]
+    # loads, as in parsed or incrementally wired netlists (thorough: also an interleaved order on N=4)
+    cs += [(("remove_unloaded", N, inputs, k, "rev"), ((N, "rev"), inputs, sb, k)) for k in ks for inputs in (False, True)]
+    if not ctx.quick:
+        sb4 = SPLIT_BITS["quick"]
+        ks4 = [int(format(k, f"0{sb4}b")[::-1], 2) for k in range(1 << sb4)]
+        cs += [(("remove_unloaded", 4, inputs, k, "mixed"), ((4, "mixed"), inputs, sb4, k)) for k in ks4 for inputs in (False, True)]
     # a circuit with a registered blackbox instance `bb` AND an ordinary node that is also called `bb` (legal: only pin names are checked)
     cs += [(("remove_unloaded", "bbname", False, k), ("bbname", False, 4, k)) for k in range(16)]
     return cs
